@@ -705,6 +705,67 @@ def usesOk (us : List HashUse) : Bool :=
   (us.all fun u => u.hasher != .std || orderFree u.op || reviewedBenign.any (·.matchesUse u)) &&
   (reviewedBenign.all fun r => decide ((us.filter r.matchesUse).length ≤ r.max))
 
+/-! ### Environment inputs other than hash seeds -/
+
+/-- Kinds of syntactic sites through which the process, the machine, the file system, the clock,
+other threads or the memory layout can reach the compile/execute path. -/
+inductive EnvKind
+  | threadLocal | staticMut | staticInterior | addressUse | envRead | fsAccess | wallClock
+  | processId | threadId | threadSpawn | randomness | machineInfo
+deriving DecidableEq, Repr
+
+/-- One row of the second generated table. -/
+structure EnvUse where
+  file : String
+  line : Nat
+  kind : EnvKind
+  fn : String
+  text : String
+deriving Repr
+
+/-- A reviewed environment input: file, enclosing function, kind, how many rows it may excuse, and
+why it cannot influence container bytes or cycle results. -/
+structure EnvReviewed where
+  file : String
+  fn : String
+  kind : EnvKind
+  max : Nat
+  why : String
+deriving Repr
+
+def reviewedEnv : List EnvReviewed := [
+  ⟨"trust-hir/src/db/queries/salsa_backend.rs", "default", .envRead, 2,
+   "TRUST_HIR_SALSA_EVENT_LOG / _METRICS only switch event logging of the query database"⟩,
+  ⟨"trust-hir/src/project.rs", "normalize_path", .fsAccess, 1,
+   "`SourceKey::from_path` canonicalises when the file exists: the key is used for identity inside the \
+    `Project` only; it must never be written into the container (checked by the runs with different \
+    working directories and directory contents)"⟩,
+  ⟨"trust-runtime/src/debug/trace.rs", "trace_enabled", .staticInterior, 1, "debug trace switch, read once"⟩,
+  ⟨"trust-runtime/src/debug/trace.rs", "trace_enabled", .envRead, 1, "ST_DEBUG_TRACE only enables a log"⟩,
+  ⟨"trust-runtime/src/debug/trace.rs", "trace_log_file", .staticInterior, 1, "handle of the debug log file"⟩,
+  ⟨"trust-runtime/src/debug/trace.rs", "trace_log_file", .envRead, 2, "path of the debug log file"⟩,
+  ⟨"trust-runtime/src/debug/trace.rs", "trace_log_file", .fsAccess, 1, "opens the debug log file for appending"⟩,
+  ⟨"trust-runtime/src/eval/stmt.rs", "check_execution_budget", .wallClock, 1,
+   "compares against `execution_deadline`, which is `None` unless the `trust-runtime test` command sets it \
+    (stated assumption)"⟩,
+  ⟨"trust-runtime/src/retain.rs", "write_bytes", .fsAccess, 2, "file retain store, only when one is attached (assumption)"⟩,
+  ⟨"trust-runtime/src/retain.rs", "read_bytes", .fsAccess, 1, "file retain store, only when one is attached (assumption)"⟩,
+  ⟨"trust-runtime/src/retain.rs", "load", .fsAccess, 1, "file retain store, only when one is attached (assumption)"⟩,
+  ⟨"trust-runtime/src/runtime/cycle.rs", "execute_cycle", .wallClock, 2, "`elapsed()` of a metrics timer, fed to the metrics sink only"⟩,
+  ⟨"trust-runtime/src/runtime/cycle.rs", "execute_program_by_name", .wallClock, 1, "metrics timer, fed to the metrics sink only"⟩,
+  ⟨"trust-runtime/src/runtime/cycle.rs", "execute_function_block_ref", .wallClock, 1, "metrics timer, fed to the metrics sink only"⟩,
+  ⟨"trust-runtime/src/runtime/metrics_subsystem.rs", "start_timer", .wallClock, 1,
+   "`Instant::now()` only when a metrics sink is attached; the value goes to the sink"⟩
+]
+
+def EnvReviewed.matchesUse (r : EnvReviewed) (u : EnvUse) : Bool :=
+  r.file == u.file && r.fn == u.fn && decide (r.kind = u.kind)
+
+/-- Every environment input is reviewed, and no review excuses more rows than it names. -/
+def envUsesOk (us : List EnvUse) : Bool :=
+  (us.all fun u => reviewedEnv.any (·.matchesUse u)) &&
+  (reviewedEnv.all fun r => decide ((us.filter r.matchesUse).length ≤ r.max))
+
 /-- Model of the reviewed loop of `apply_program_retain_overrides` (harness/config.rs:189-199):
 program definitions as a function from the upper-cased type name to the retain policies of its
 variables (`none` = `Unspecified`); one iteration sets the unspecified ones of one program. -/
